@@ -192,6 +192,9 @@ func newInstance(cfg InstCfg) (*Instance, error) {
 	if n == 0 {
 		n = 1
 	}
+	if n < 0 {
+		n = 0
+	}
 	for i := 0; i < n; i++ {
 		in.openConn()
 	}
